@@ -18,6 +18,7 @@ mod g_e2e;
 mod g_pool;
 mod g_hb;
 mod g_socks;
+mod g_hostile;
 mod e2e;
 
 use std::io::Write;
@@ -47,6 +48,7 @@ fn group_by_name(name: &str) -> Option<Box<dyn Group>> {
         "pool" => Some(Box::new(g_pool::PoolGroup)),
         "hb" => Some(Box::new(g_hb::HbGroup)),
         "socks" => Some(Box::new(g_socks::SocksGroup)),
+        "hx" => Some(Box::new(g_hostile::HostileGroup)),
         _ => None,
     }
 }
@@ -79,7 +81,7 @@ fn main() {
         std::process::exit(2);
     };
     // panics inside a case are observations, not crashes of the harness
-    std::panic::set_hook(Box::new(|_| {}));
+    std::panic::set_hook(Box::new(|_| { g_hostile::PANICS.fetch_add(1, std::sync::atomic::Ordering::SeqCst); }));
 
     std::fs::create_dir_all(&out).unwrap();
     if std::env::var("VH_SCRATCH").is_err() { unsafe { std::env::set_var("VH_SCRATCH", &out); } }
@@ -140,6 +142,7 @@ fn main() {
         progress.set_len(0).unwrap();
         progress.seek(std::io::SeekFrom::Start(0)).unwrap();
         progress.write_all(p.as_bytes()).unwrap();
+        let panics_before = g_hostile::PANICS.load(std::sync::atomic::Ordering::SeqCst);
         let res = std::panic::catch_unwind(std::panic::AssertUnwindSafe(|| group.exec(case)));
         let outc = match res {
             Ok(o) => o,
@@ -150,6 +153,12 @@ fn main() {
                 nontrivial: true,
             },
         };
+        let mut outc = outc;
+        // a panic in any library task during the case (spawned tasks do not propagate theirs) is a finding for every group
+        let panics_after = g_hostile::PANICS.load(std::sync::atomic::Ordering::SeqCst);
+        if panics_after > panics_before && !outc.oracle.iter().any(|f| f.sig.starts_with("task_panicked/") || f.sig.starts_with("panic/")) {
+            outc.oracle.push(OracleFail { sig: format!("task_panicked/{gname}"), detail: format!("{} panic(s) in library tasks during this case", panics_after - panics_before) });
+        }
         writeln!(trace, "# case {ci}").unwrap();
         for (k, l) in case.lines.iter().enumerate() {
             let o = outc.obs.get(k).cloned().unwrap_or_else(|| "MISSING".into());
